@@ -133,9 +133,31 @@ def _run(fn, x, o, extra=None):
     raise ValueError(fn)
 
 
+def _replay_stop(w):
+    """stop decision of a scale-free rule before / after a power-of-two rescaling or a sign flip of the iterate (exact arithmetic)"""
+    import emd
+    S = emd.sift
+    f = float(w['factor'])
+    if w['rule'] == 'rilling':
+        up, lo = np.array(w['upper'], float), np.array(w['lower'], float)
+        th = w['thresh']
+        a = S.rilling_stop(up, lo, sd1=th[0], sd2=th[1], tol=th[2])
+        # the envelopes of f*x are f*(upper, lower) for f > 0 and f*(lower, upper) for f < 0
+        b = S.rilling_stop(f * up, f * lo, sd1=th[0], sd2=th[1], tol=th[2]) if f > 0 else S.rilling_stop(f * lo, f * up, sd1=th[0], sd2=th[1], tol=th[2])
+    else:
+        p, q = np.array(w['proto'], float), np.array(w['prev'], float)
+        a = S.sd_stop(p, q, sd=w['thresh'])
+        b = S.sd_stop(f * p, f * q, sd=w['thresh'])
+    if bool(a[0]) != bool(b[0]) or abs(float(a[1]) - float(b[1])) > 1e-12 * max(1.0, abs(float(a[1]))):
+        return True, '%s_stop decides (%s, metric %.6g) on the iterate and (%s, metric %.6g) on the iterate scaled by %g' % (w['rule'], bool(a[0]), a[1], bool(b[0]), b[1], f)
+    return False, 'same decision and metric'
+
+
 def replay(w):
     import emd
     import warnings
+    if w.get('kind') == 'stop_rule':
+        return _replay_stop(w)
     if w.get('kind') != 'equivariance':
         return False, 'unknown witness kind'
     x = np.array(w['x'], float)
@@ -212,6 +234,33 @@ def refute(tier, seed, emit):
                     if ok:
                         cl = 'bit-for-bit-for-powers-of-two' if 'bit-for-bit' in msg else ('time-reversal' if tr[0] == 'reverse' else 'scaling') + ':' + fn
                         emit.violation(cl, w, msg)
+        if emit.full:
+            return
+    # the scale-free stopping metrics themselves, on random envelope pairs / iterate pairs
+    nst = 300 if tier == 'quick' else 3000
+    emit.scope('%d seeded envelope pairs (upper > lower, mean envelope of either sign, lengths 8..64) x rilling thresholds x factors {-1, 4, -0.25}: rilling_stop decision and metric unchanged; the same for sd_stop on iterate pairs' % nst)
+    for q in range(nst):
+        n = int(r.randint(8, 65))
+        amp = 0.2 + r.rand(n)
+        if q % 2:
+            mean = 0.3 * r.randn(n) + 0.2 * r.randn()
+        else:       # globally small mean with one or two local excursions of one sign (the case the local criterion sd2 exists for)
+            mean = 0.01 * amp * r.randn(n)
+            for j in r.choice(n, size=1 + q % 4 // 2, replace=False):
+                mean[j] = (0.8 if q % 8 < 4 else -0.8) * amp[j]
+        th = [(0.05, 0.5, 0.05), (0.05, 0.3, 0.3), (0.2, 0.4, 0.1)][q % 3]
+        f = [-1.0, 4.0, -0.25][(q // 3) % 3]
+        emit.case(('stop', q), nontrivial=f < 0, contract='rilling_stop')
+        w = {'kind': 'stop_rule', 'rule': 'rilling', 'upper': (mean + amp).tolist(), 'lower': (mean - amp).tolist(), 'thresh': list(th), 'factor': f}
+        ok, msg = replay(w)
+        if ok:
+            emit.violation('stop-rule-scale-free:rilling', w, msg)
+        p = r.randn(n)
+        w = {'kind': 'stop_rule', 'rule': 'sd', 'proto': p.tolist(), 'prev': (p + 0.3 * r.randn(n)).tolist(), 'thresh': [0.05, 0.2, 0.5][q % 3], 'factor': f}
+        emit.case(('stop-sd', q), nontrivial=f < 0, contract='sd_stop')
+        ok, msg = replay(w)
+        if ok:
+            emit.violation('stop-rule-scale-free:sd', w, msg)
         if emit.full:
             return
     emit.scope('mask_sift with ratio amplitudes (ratio_sig, ratio_imf) x nphases {2, 4, 3} x factors {2, 0.5, 3.7, -1, -2, -3.7}')
